@@ -265,6 +265,14 @@ def instance(s: dict, comps: dict, tok: Tok, mode: str = "rand", depth: int = 0,
         return out
     if t == "array":
         items = s.get("items", {})
+        pre = s.get("prefixItems") or []
+        if pre:
+            # tuple-style array (3.1): positional schemas first, `items` for the rest
+            k_ = len(pre) if mode == "max" or "items" not in s else rng.randint(0, len(pre))
+            out_ = [instance(p_, comps, tok, mode, depth + 1) for p_ in pre[: (0 if mode == "min" else k_)]]
+            if "items" in s and len(out_) == len(pre) and mode != "min":
+                out_ += [instance(items, comps, tok, mode, depth + 1) for _ in range(rng.choice([0, 1, 2]))]
+            return out_
         n = 0 if (mode == "min" or deep) else (3 if mode == "max" else rng.choice([0, 1, 1, 2, 3]))
         return [instance(items, comps, tok, mode, depth + 1) for _ in range(n)]
     if t in ("string", "integer", "number", "boolean", "null"):
@@ -408,7 +416,8 @@ def valid(s, v, comps: dict, depth: int = 0) -> bool:
                 return False
         return True
     if t == "array":
-        return isinstance(v, list) and all(valid(s.get("items", {}), i, comps, depth + 1) for i in v)
+        pre = s.get("prefixItems") or []
+        return isinstance(v, list) and all(valid(pre[k_] if k_ < len(pre) else s.get("items", {}), i, comps, depth + 1) for k_, i in enumerate(v))
     if t == "string":
         if not isinstance(v, str):
             return False
@@ -1147,6 +1156,9 @@ def matrix_kinds(v31: bool) -> dict:
         "wrap_allof": {"allOf": [R("N")]}, "wrap_oneof": {"oneOf": [R("E")]}, "ref_union": R("U"),
     }
     if v31:
+        kinds["tuple_items"] = {"type": "array", "prefixItems": [{"type": "integer"}, {"type": "boolean"}], "items": {"type": "string", "format": "date"}}
+        kinds["tuple_only"] = {"type": "array", "prefixItems": [{"type": "string", "format": "date"}, R("N")]}
+        kinds["tuple_one"] = {"type": "array", "prefixItems": [R("E")], "items": R("E")}
         kinds["typelist"] = {"type": ["string", "integer"]}
         kinds["null"] = {"type": "null"}
     return kinds
@@ -1313,13 +1325,31 @@ def sharing_docs() -> list[tuple[str, dict]]:
         d["components"]["schemas"] = {"Alias": {kw: [R("Target")]}, "EnumAlias": {kw: [R("Code")]}, "Holder": {"type": "object", "properties": {"a": R("Alias"), "e": R("EnumAlias"), "w": {kw: [R("Target")]}, "l": {"type": "array", "items": {kw: [R("Code")]}}}},
                                       "Target": {"type": "object", "properties": {"t": {"type": "string"}}, "required": ["t"]}, "Code": {"type": "string", "enum": ["c1", "c2"]},
                                       "Later": {"type": "object", "properties": {"again": R("Alias"), "code": R("EnumAlias")}}}
+        if variant % 2 == 1:
+            tup = {"type": "array", "prefixItems": [{"type": "integer"}, {"type": "boolean"}], "items": {"type": "string", "format": "date"}}
+            d["components"]["schemas"]["Pair"] = clone(tup)
+            d["components"]["schemas"]["Holder"]["properties"]["pair"] = R("Pair")
+            d["components"]["schemas"]["Later"]["properties"]["pair2"] = R("Pair")
+            # (the inline member comes first: its properties are processed before the still unprocessed parent ends the attempt, and again in the retry round)
+            d["components"]["schemas"]["Early"] = {"allOf": [{"type": "object", "properties": {"tup": clone(tup), "tupm": {"type": "array", "prefixItems": [{"type": "string"}], "items": R("Code")}}}, R("Target")]}
+            d["components"]["schemas"] = {"Early": d["components"]["schemas"].pop("Early"), **d["components"]["schemas"]}
         d["components"]["parameters"] = {"CodeParam": {"name": "code", "in": "query", "schema": {kw: [R("Code")]}}, "When": {"name": "when", "in": "query", "schema": {("oneOf" if kw == "allOf" else kw): [{"type": "string", "format": "date"}]}}}
         CP, WP = {"$ref": "#/components/parameters/CodeParam"}, {"$ref": "#/components/parameters/When"}
+        TP = None
+        if variant % 2 == 1:
+            d["components"]["parameters"]["Tup"] = {"name": "tup", "in": "query", "schema": clone(tup)}
+            TP = {"$ref": "#/components/parameters/Tup"}
         J = lambda sch: {"200": {"description": "ok", "content": {"application/json": {"schema": sch}}}}  # noqa: E731
         d["paths"] = {"/alpha": {"get": {"operationId": "list_alpha", "parameters": [CP, WP], "responses": J(R("Holder"))}}, "/beta": {"get": {"operationId": "list_beta", "parameters": [CP], "responses": J(R("Alias"))}},
                       "/gamma/{gid}": {"parameters": [{"name": "kind", "in": "query", "schema": {kw: [R("Code")]}}, {"name": "gid", "in": "path", "required": True, "schema": {"type": "string"}}],
                                        "get": {"operationId": "get_gamma", "responses": J(R("Later"))}, "put": {"operationId": "put_gamma", "parameters": [WP], "requestBody": {"content": {"application/json": {"schema": {kw: [R("Target")]}}}}, "responses": okw},
                                        "delete": {"operationId": "delete_gamma", "parameters": [CP], "responses": okw}}}
+        if TP:
+            # a tuple-style array (prefixItems + items) on a reusable parameter used by operations of different paths and on a path-item parameter
+            d["paths"]["/alpha"]["get"]["parameters"].append(TP)
+            d["paths"]["/beta"]["get"]["parameters"].append(TP)
+            d["paths"]["/gamma/{gid}"]["parameters"].append({"name": "pt", "in": "query", "schema": clone(tup)})
+            d["paths"]["/gamma/{gid}"]["delete"]["parameters"].append(TP)
         out.append((f"sharing:wrappers{variant}", d))
     return out
 
